@@ -9,6 +9,7 @@ COMMON = [
 ]
 
 PROPS = {
+    "C01": dict(level="exploration", shards=(4, 16), timeout=(600, 3000), assumptions=COMMON),
     "C06": dict(level="exploration", shards=(2, 16), timeout=(300, 1500), assumptions=COMMON),
     "C15": dict(level="exploration", shards=(2, 16), timeout=(300, 1500), assumptions=COMMON, fuzz=[("FuzzC15", 60)]),
     "C17": dict(level="exploration", shards=(2, 16), timeout=(300, 1500), assumptions=COMMON),
@@ -20,6 +21,11 @@ NOT_APPLICABLE = {}
 
 # Texts for MANIFEST.json
 TEXT = {
+    "C01": dict(
+        technique="property-based round-trip and metamorphic (text-substitution) test with a reflection-guided generator over the library's stanza types (rapid)",
+        level_text="Exploration: values of Message, Presence, IQ (every registered payload type, generic Node trees), Err, the stream-management / SASL / handshake elements are generated field by field through reflection over the library's own types (strings over all XML-legal code points), serialised, parsed back both with xml.Unmarshal and with stanza.NextPacket on a stream, and compared field by field; the re-serialised bytes must be identical; the element/attribute skeleton must equal that of the same value with every text replaced by 'x' (no injection); the output must be one well-formed element. A completeness probe fails the run if the repository registers an extension type the generator does not know. ~80k values quick, ~4M thorough.",
+        level_note="Depth-bounded values (Node depth <= 4, one level of <forwarded/> nesting). Fields that are raw by design (SASLAuth.Value, Handshake.Value, HTMLBody.InnerXML) and element-name fields (Err.Reason, Node names) are generated from their documented alphabets only. One known finding (CR inside the CDATA-serialised Note.Text) is listed in KNOWN_FINDINGS.txt.",
+    ),
     "C06": dict(
         technique="property-based differential test (rapid): generated route tables and packets against a reference router",
         level_text="Exploration: generated route tables (0-6 routes, every conjunction of name/type/namespace matchers) and packets of every kind are dispatched through the real Router.route (verif export) and compared with a reference router written from the package comment: first accepting route only, exactly once; one feature-not-implemented error for unhandled IQ get/set and no reply otherwise. 50k cases quick, 3M thorough; matchers are biased so that >40% of cases have several accepting routes or none.",
